@@ -332,3 +332,58 @@ Proof.
   rewrite (to_chunks_ok uncompress compress Hr Hb) in Hf. injection Hf as <-.
   apply is_iwa_accepts_frames. apply (chunk_payloads_small uncompress compress Hr Hb).
 Qed.
+
+(* ---------- exact characterisation of the repaired sniffer ---------- *)
+Definition small (p : bytes) : Prop := lenN p < 16777216.
+
+Lemma le3_of_bytes : forall a b c, a < 256 -> b < 256 -> c < 256 ->
+  le3 (le_val [a; b; c; 0]) = [a; b; c] /\ le_val [a; b; c; 0] < 16777216.
+Proof. intros a b c Ha Hb Hc. unfold le3. cbn [le_val]. split; [repeat f_equal; lia|lia]. Qed.
+
+Lemma is_iwa_f_sound : forall fuel data acc l, Forall (fun x => x < 256) data ->
+  is_iwa_f true fuel data acc = Ok (Some l) ->
+  acc + lenN data <= l /\
+  (l = acc + lenN data -> exists ps, data = concat (map framed ps) /\ Forall small ps).
+Proof.
+  induction fuel as [|fuel IH]; intros data acc l Hb H.
+  - destruct data; [|discriminate]. injection H as <-. rewrite lenN_nil. split; [lia|].
+    intros _. exists []. split; [reflexivity|constructor].
+  - destruct data as [|x data].
+    { injection H as <-. rewrite lenN_nil. split; [lia|]. intros _. exists []. split; [reflexivity|constructor]. }
+    rewrite is_iwa_f_S in H. cbv zeta in H. cbn [andb] in H.
+    destruct (Nat.ltb_spec (length (firstn 4 (x :: data))) 4) as [Hs|Hs]; [discriminate|].
+    destruct (N.eqb_spec x 0) as [->|]; [|discriminate]. cbn [negb] in H.
+    destruct data as [|a [|b [|c rest]]]; try (cbn in Hs; lia).
+    assert (Ha : a < 256 /\ b < 256 /\ c < 256).
+    { pose proof (Forall_inv (Forall_inv_tail Hb)). pose proof (Forall_inv (Forall_inv_tail (Forall_inv_tail Hb))).
+      pose proof (Forall_inv (Forall_inv_tail (Forall_inv_tail (Forall_inv_tail Hb)))). auto. }
+    destruct Ha as (Ha & Hb' & Hc).
+    destruct (le3_of_bytes a b c Ha Hb' Hc) as [Hle3 Hseg].
+    set (seg := le_val [a; b; c; 0]) in *.
+    change (unpack_len3 (firstn 4 (0 :: a :: b :: c :: rest))) with (Ok seg) in H. cbn [bind] in H.
+    rewrite dropN_add, dropN_4 in H.
+    assert (Hrest : Forall (fun x => x < 256) (dropN seg rest)).
+    { rewrite dropN_skipn. apply Forall_forall. intros y Hy.
+      assert (Hin : In y rest) by (rewrite <- (firstn_skipn (N.to_nat seg) rest); apply in_or_app; now right).
+      do 4 apply Forall_inv_tail in Hb. rewrite Forall_forall in Hb. now apply Hb. }
+    destruct (IH _ _ _ Hrest H) as [Hle Heq].
+    rewrite !lenN_cons. rewrite lenN_dropN in Hle, Heq. split; [lia|].
+    intros Hl.
+    assert (Hfit : seg <= lenN rest) by lia.
+    destruct (Heq ltac:(lia)) as (ps & Hps & Hsm).
+    exists (takeN seg rest :: ps). split.
+    + cbn [map concat]. unfold framed at 1. rewrite lenN_takeN. replace (N.min seg (lenN rest)) with seg by lia.
+      rewrite Hle3. cbn [app]. rewrite <- Hps. now rewrite takeN_dropN.
+    + constructor; [|exact Hsm]. unfold small. rewrite lenN_takeN. lia.
+Qed.
+
+Lemma is_iwa_iff_lemma : forall data, Forall (fun x => x < 256) data ->
+  (is_iwa_file true data = Ok true <-> exists ps, data = concat (map framed ps) /\ Forall small ps).
+Proof.
+  intros data Hb. split.
+  - intros H. unfold is_iwa_file in H.
+    destruct (is_iwa_f true (length data) data 0) as [[l|]|e] eqn:E; cbn [bind] in H; try discriminate.
+    injection H as H. apply N.eqb_eq in H. subst l.
+    destruct (is_iwa_f_sound _ _ _ _ Hb E) as [_ Hex]. apply Hex. lia.
+  - intros (ps & -> & Hsm). now apply is_iwa_accepts_frames.
+Qed.
